@@ -93,14 +93,47 @@ type exec struct {
 	envOn    bool
 	raceOn   bool
 	quiet    bool // setup phase: default choices, nothing recorded
+	opt      Options
 }
 
 var cur *exec
+
+// Rng is a small xorshift generator (math/rand's source is not usable here:
+// it is called from different goroutines whose hand-offs are hidden from the
+// race detector on purpose).
+type Rng struct{ s uint64 }
+
+// NewRng seeds a generator.
+func NewRng(seed int64) *Rng { return &Rng{s: uint64(seed)*0x9E3779B97F4A7C15 + 0x1234567} }
+
+//go:norace
+func (r *Rng) next() uint64 {
+	r.s ^= r.s << 13
+	r.s ^= r.s >> 7
+	r.s ^= r.s << 17
+	return r.s
+}
+
+// Intn returns a number in [0,n).
+//
+//go:norace
+func (r *Rng) Intn(n int) int { return int(r.next() % uint64(n)) }
+
+// Float64 returns a number in [0,1).
+//
+//go:norace
+func (r *Rng) Float64() float64 { return float64(r.next()>>11) / (1 << 53) }
 
 // Options for Run.
 type Options struct {
 	StepBudget int  // livelock bound on scheduling points (default 200000)
 	EnvChoices bool // record environment choice points (otherwise default answers, unrecorded)
+	// Random, if set, picks the choices after the prefix at random instead of
+	// alternative 0 (diagnostic sampling of deep schedules; the recorded
+	// choices replay deterministically). Switch is the probability of
+	// leaving a runnable thread / the default environment answer.
+	Random *Rng
+	Switch float64
 }
 
 // Active reports whether an execution is in progress (shims fall back to
@@ -133,6 +166,7 @@ func Run(prefix []int, opt Options, body func()) *Result {
 		budget: opt.StepBudget,
 		envOn:  opt.EnvChoices,
 		raceOn: RaceEnabled,
+		opt:    opt,
 	}
 	cur = e
 	main := e.newThread("main", false, body)
@@ -299,6 +333,12 @@ func (e *exec) choose(kind byte, n int, runningEnabled bool, label string) int {
 			e.res.Diverged = fmt.Sprintf("choice %d at point %d (%s) out of range n=%d", c, idx, label, n)
 			c = 0
 			e.prefix = e.prefix[:idx]
+		}
+	} else if e.opt.Random != nil && n > 1 {
+		if kind == KThread && !runningEnabled {
+			c = e.opt.Random.Intn(n)
+		} else if e.opt.Random.Float64() < e.opt.Switch {
+			c = 1 + e.opt.Random.Intn(n-1)
 		}
 	}
 	tid := -1
